@@ -70,6 +70,8 @@ def run(ctx, L, tier):
     c02.terminal_clause(ctx, L)
     escape_analysis(ctx, L)
     progress(ctx, L)
+    P.f1_optional_encode(ctx, L)     # decode -> encode -> decode is a fixpoint only if encode writes what decode reads (presence by `is None`)
+    P.f2_zero_fill(ctx, L)
     return sorted(set(o.rule for o in L.obligations))
 
 
